@@ -49,9 +49,15 @@ def run(ctx):
         "shape). About the tree BEFORE F30: output_on_negotiated_transport_false / second_identify_leaks_cleartext (witness; finding "
         "second-identify-cleartext, listed fixed, replayed on every run) and output_on_negotiated_transport_partial (hypothesis "
         "NoRebufferAfterUpgrade); upgrade_loses_nothing speaks about the F30 tree (fixed_tree_is_round6_model)",
-        "writer-stack model: an upgrade installs a clean new stack (with F30 also snappy negotiated by a later IDENTIFY after "
-        "deflate: finding snappy-after-deflate-garbled, listed fixed, oracle-only replay on every run); the server's "
-        "read side after a second upgrade is not modelled",
+        "writer-stack model: an upgrade installs a clean new stack; Model.WireStack.kstep also carries the KIND of every upgrade, "
+        "c.tlsConn and c.flateWriter (which Flush flushes whatever stack is current). The tree is Tie.WireStack.tree (tree_known: "
+        "/repo d6aa4e3 or d6aa4e3 + F30b). On d6aa4e3 the clause WITH the markers is false (output_on_negotiated_transport_k_false: "
+        "IDENTIFY{deflate} then IDENTIFY{tls_v1}; open finding tls-after-deflate-garbled, replayed on every run) and holds under "
+        "NoTlsAfterDeflate (_k_partial); with F30b it holds for every action sequence (output_on_negotiated_transport_k). The "
+        "theorems above about 'every output byte' (this_tree_full) speak about FRAME bytes",
+        "the server's read side after a second upgrade is not modelled: bytes still buffered in a replaced reader can only be bytes "
+        "the client sent BEFORE it had the IDENTIFY response (docs/C07.md, round 11), which the protocol forbids after a "
+        "stack-changing IDENTIFY; a client that leaves deflate must skip sync markers of unsolicited flushes (harness does)",
     ]
     ctx.rule = ("codec: generated envelopes (every timestamp class incl. negative / extreme, attempts 0/255/256/65535/"
                 "random, ids, bodies of size 0..max+1 around 26/64/4096/16384 with classes random, all-zero, "
